@@ -115,3 +115,83 @@ Theorem C01_core_pipeline : forall (g : Z) (c : cfg) (evs : list event),
     forall i, (i < length seqs)%nat -> Permutation (filter rel (nth i seqs [])) (exp_track c evs i).
 Proof. exact C01_proofs.C01_core_pipeline. Qed.
 Print Assumptions C01_core_pipeline.
+
+(* ================================================================ FRONT END (piece level).
+   Vocabulary (Proofs/C01_frontend_sig.v, _pipe.v, _pair.v, C01_frontend.v, C01_frontend_total.v):
+   * `valid_track i r` (boolean, = `track_ok i r`): r as track number i has non-negative waits; only WAIT / NOTE_ON /
+     NOTE_OFF messages, plus TIME_SIGNATURE messages when i = 0; for every pitch that occurs its NOTE_ON / NOTE_OFF
+     messages strictly alternate starting with an on, every on is closed, and its off comes after a positive wait sum
+     (`sig_ok` of the pitch signature `psig`: single channel, no overlap, positive durations); at most one time
+     signature per tick and none that repeats the signature in force (`ts_ok`).
+     `tracks_ok 0 tracks` is the conjunction of `valid_track j (track j)` (C01_tracks_ok_spec).
+   * `notes_of r`: the notes (pitch, onset, offset, velocity) of a relative track, by an independent accumulator
+     (clock over the waits, table of open pitches).
+   * `piece_tsl tracks`: the (tick, numerator, denominator) of the time signatures of track 0.
+   * `ts_run g c t0 B l`: the time signatures l against the bar grid (bars of length B from t0): each on the tick grid;
+     one inside a bar is unconstrained (the tokeniser ignores it); one on a bar line has a positive denominator, a
+     whole number of eighths within the signature range and a bar length that is a positive multiple of g.
+   * `valid_piece g c tracks` (boolean): one track per configured track, track j valid as track j, every note with
+     onset on the grid g, pitch in range, duration among the note values, velocity <= 127, the duration of the
+     longest track (`piece_dur`, where the INTERNAL cap can land) on the grid, and `ts_run` of the time signatures.
+   * `track_notes i evs`: the (pitch, onset, offset, velocity) of the NOTE_ON events of channel i, in event order.
+   * `note_msgs c x`: the two messages the decoder writes for note x (velocity replaced by its bin value).
+   PARTIAL (what valid_piece excludes although the library accepts it): a time signature equal to the one in force
+   (normalise drops it; see ex_repeated_ts_rejected) and two time signatures on one tick. *)
+From Proofs Require Import C01_frontend_pipe C01_frontend C01_frontend_total.
+
+(* Clause "tokenisation succeeds", front-end part, for EVERY input: `tok_frontend` never fails.  Its only error
+   would be the IndexError of get_interleaved_message_pairings (a channel without any pairing), which needs a
+   NOTE_OFF without NOTE_ON, TIME_SIGNATURE or INTERNAL message; normalise never leaves one. *)
+Theorem C01_frontend_total : forall tracks : list (list msg), exists evs, tok_frontend tracks = Ok evs.
+Proof. exact C01_frontend_total.C01_frontend_total. Qed.
+Print Assumptions C01_frontend_total.
+
+(* `tracks_ok 0` is "track j is valid as track j". *)
+Theorem C01_tracks_ok_spec : forall tracks : list (list msg),
+  tracks_ok 0 tracks = true <-> forall n r, nth_error tracks n = Some r -> valid_track (0 + Z.of_nat n) r = true.
+Proof. exact (fun tracks => C01_frontend.tracks_ok_valid_track tracks 0). Qed.
+Print Assumptions C01_tracks_ok_spec.
+
+(* The events of a valid piece: ordered by time; every event sits in the channel of its first message; the NOTE_ON
+   events of channel i are exactly the notes of track i (as a multiset -- simultaneous notes of a track are re-ordered
+   by pitch by AbsoluteSequence.sort -- and, pitch by pitch, in the same order); the TIME_SIGNATURE events are, in
+   order, the time signatures of track 0. *)
+Theorem C01_frontend_notes_partial : forall (g : Z) (c : cfg) (tracks : list (list msg)) (evs : list C01_rest.event),
+  valid_piece g c tracks = true -> tok_frontend tracks = Ok evs ->
+  Sorted.StronglySorted (fun a b => ev_time a <= ev_time b) evs /\
+  (forall e, In e evs -> fst e = m_chan (ev_msg e)) /\
+  (forall i, (i < length tracks)%nat ->
+     Permutation (track_notes (Z.of_nat i) evs) (notes_of (nth i tracks [])) /\
+     forall n, filter (pitch_is n) (track_notes (Z.of_nat i) evs) = filter (pitch_is n) (notes_of (nth i tracks []))) /\
+  map ev_tsv (filter is_tsev evs) = piece_tsl tracks.
+Proof. exact C01_frontend.C01_frontend_notes_partial. Qed.
+Print Assumptions C01_frontend_notes_partial.
+
+(* ... hence they satisfy the hypothesis of the core theorems above. *)
+Theorem C01_frontend_valid_partial : forall (g : Z) (c : cfg) (tracks : list (list msg)) (evs : list C01_rest.event),
+  valid_cfg g c = true -> valid_piece g c tracks = true -> tok_frontend tracks = Ok evs -> valid_events g c evs = true.
+Proof. exact C01_frontend.C01_frontend_valid_partial. Qed.
+Print Assumptions C01_frontend_valid_partial.
+
+(* The property at piece level, for every valid configuration (all flag combinations, any bins / pitch range / note
+   values / track count) and every valid piece (notes on all tracks, rests crossing bar lines, time-signature changes
+   on track 0, simultaneous notes across tracks): tokenise succeeds with tokens of the vocabulary, they encode,
+   decode gives them back, detokenise succeeds with one sequence per track, and the note messages of sequence i are
+   exactly (up to the order of the messages; the sequences are time-ordered by C01_detok_sorted) the notes of track i
+   -- same pitch, onset tick and offset tick -- with each velocity replaced by the value of its velocity bin.  Bar
+   grid and total duration: the NOTE / INTERNAL content of sequence i is `exp_track c evs i` (an INTERNAL cap at every
+   bar end passed by the reference clock over the front end's events evs, the last bar completed), and the final
+   clock sits on that last bar line.  PARTIAL: see the note on valid_piece above. *)
+Theorem C01_piece_roundtrip_partial : forall (g : Z) (c : cfg) (tracks : list (list msg)),
+  valid_cfg g c = true -> valid_piece g c tracks = true ->
+  exists evs toks st ids seqs,
+    tok_frontend tracks = Ok evs /\ valid_events g c evs = true /\
+    tokenise c (tstate0 c) tracks = Ok (toks, st) /\ Forall (fun t => In t (vocab c)) toks /\
+    encode c toks = Ok ids /\ decode c ids = Ok toks /\
+    t_time st = r_time (run_end c (rclk0 c) evs) /\ t_tbar st = 0 /\
+    detokenise c toks = Ok seqs /\ length seqs = length tracks /\
+    forall i, (i < length tracks)%nat ->
+      Permutation (filter rel (nth i seqs [])) (exp_track c evs i) /\
+      Permutation (filter is_note (nth i seqs [])) (flat_map (note_msgs c) (notes_of (nth i tracks []))).
+Proof. exact C01_frontend.C01_piece_roundtrip_partial. Qed.
+Print Assumptions C01_piece_roundtrip_partial.
